@@ -173,6 +173,13 @@ def _run_scenario(sc):
             r1, r2 = w.raw_resolve(a1), w.raw_resolve(a2)
             if r1 != r2:
                 return False, 'at the yield the two terms differ: %s vs %s' % (r1, r2)
+            # while this unification is suspended at its answer another one over constants is created (not yet advanced) and
+            # one is created and run to the end: neither may make this one yield again or change a binding
+            _other = engine.unify(7, 7)
+            _n3 = sum(1 for _x in engine.unify(8, 8))
+            if _n3 != 1:
+                return False, 'a unification of two equal constants started meanwhile yielded %d times' % _n3
+            _other2 = engine.unify(7, 7)
             if how == 'close':
                 g.close()
                 break
